@@ -44,15 +44,25 @@ func (Engine) Generate(r *core.Rng, property, tier string) *core.Plan {
 	if property == "C33" || (property == "C34" || property == "C03") && r.Bool(0.3) || property == "C31" && r.Bool(0.5) {
 		// side-chain withdrawals: the environment's cross-chain arbiters
 		p.SetKnob("wdarbiters", int64(r.Range(3, 6)))
+		if property == "C33" && r.Bool(0.15) {
+			// a full-size set (12 council + 24 elected): signer indexes beyond
+			// 31; only Schnorr withdrawals can name that many arbiters
+			p.SetKnob("wdarbiters", int64(r.Range(33, 36)))
+		}
 	}
 	if property == "C31" || property == "C33" || p.Knob("wdarbiters", 0) > 0 || property == "C05" && r.Bool(0.3) {
 		// a cross-chain ('X') address holding deposits, and the emergency
 		// policy thresholds inside the run: freeze from ccfreeze, restriction
 		// from ccfreeze+ccwindow (window 0: no freeze window at all)
 		p.SetKnob("ccactor", 1)
-		if property == "C31" || r.Bool(0.5) {
+		if property == "C31" || r.Bool(0.5) || p.Knob("wdarbiters", 0) > 16 {
 			p.SetKnob("ccfreeze", p.Knob("maturity", 2)+5+int64(r.Intn(12)))
 			p.SetKnob("ccwindow", int64([]int{0, 1, 1, 2, 3, 5, 8, 30}[r.Intn(8)]))
+			if p.Knob("wdarbiters", 0) > 16 {
+				// the signer-index rules start early in runs with a full-size set
+				p.SetKnob("ccfreeze", p.Knob("maturity", 2)+5)
+				p.SetKnob("ccwindow", int64(r.Intn(3)))
+			}
 		}
 	}
 	if property == "C30" || property == "C12" && r.Bool(0.25) {
@@ -64,6 +74,9 @@ func (Engine) Generate(r *core.Rng, property, tier string) *core.Plan {
 		p.SetKnob("crconly", cr)
 		// and strictly above the CRC-only height, as on every real network
 		p.SetKnob("revertpowoff", max(1, 7-cr)+int64(r.Intn(3)))
+		if r.Bool(0.6) {
+			p.SetKnob("nbtime", int64(r.Range(120, 900)))
+		}
 	}
 	n := r.Range(12, 45)
 	if tier == "thorough" {
@@ -233,7 +246,13 @@ func (g *gen) badTx() TxSpec {
 func (g *gen) wdTx() TxSpec {
 	r := g.r
 	t := TxSpec{From: r.Intn(10), InSel: []int{r.Intn(8)}, To: []int{r.Intn(10), r.Intn(10)}}
-	w := &WdSpec{Ver: r.Intn(3), Signer: r.Intn(12)}
+	w := &WdSpec{Ver: r.Intn(3), Signer: r.Intn(40)}
+	if n := int(g.p.Knob("wdarbiters", 0)); n > 16 {
+		w.Ver = 2
+		if n > 32 && r.Bool(0.5) {
+			w.Signer = n - 1 - r.Intn(n-32) // an arbiter whose index is beyond 31
+		}
+	}
 	for k := r.Pick(0, 6, 3, 1); k > 0; k-- {
 		w.Hashes = append(w.Hashes, r.Intn(8))
 	}
@@ -375,6 +394,13 @@ func (g *gen) step() {
 	r := g.r
 	if (g.prop == "C30" || g.prop == "C12" && g.p.Knob("crconly", 0) > 0) && r.Bool(0.12) {
 		g.deepFork()
+		return
+	}
+	if nb := g.p.Knob("nbtime", 0); nb > 0 && r.Bool(0.05) {
+		// the chain falls silent, then a miner reverts consensus to PoW: from
+		// here on the last irreversible height is frozen while the tip grows
+		g.p.Add(Step{Op: "sleep", Secs: nb + int64(r.Intn(120))})
+		g.p.Add(Step{Op: "mine", Block: &BlockSpec{Miner: r.Intn(10), Revert: true}})
 		return
 	}
 	if g.on["reorder"] && r.Bool(0.06) {
